@@ -132,6 +132,11 @@ def classify(component, what, case):
     addr = tuple(case["addr"])
     if law in ("find", "xpath", "chain", "exists") and chain_has_both_quotes(forest, addr):
         return "F7"
+    if law == "xpath" and case.get("rc", 0) <= -12:
+        # F53: more than one node returned, and a sibling from another module has the same name
+        sibs, i, n = pg.chain_of(forest, addr)[-1]
+        if any(m[1] == n[1] and m[0] != n[0] for m in sibs):
+            return "F53"
     if law == "chain" and case.get("rc") == LY_EINVAL:
         p = top_position(forest, addr)
         if p is not None and p > 1:
